@@ -1132,6 +1132,8 @@ func c06Run(c *Case) (string, []Fail) {
 		return c06RunE2E(c)
 	case 6:
 		return c06RunKey(c)
+	case 7:
+		return c06RunPooled(c)
 	}
 	return "badcase", nil
 }
